@@ -195,6 +195,61 @@ fn ob_c11_char_casing_titlecase(u: u32) {
     assert!(CharExt::has_casing(c), "C11 a title case letter has casing");
 }
 
+// A Glob with a placeholder program: `captures()` never reads the compiled regex (verifier-only; the
+// placeholder is never read and never dropped).
+#[cfg(kani)]
+fn mk_glob(tokens: Vec<crate::token::Token<'static, crate::diagnostics::Span>>) -> Glob<'static> {
+    use crate::token::verif_kani_token::{mk_concatenation_spanned, mk_tokenized};
+    // SAFETY: never read, never dropped (the Glob is forgotten by the caller).
+    let program = unsafe { core::mem::MaybeUninit::<Regex>::uninit().assume_init() };
+    Glob { tree: crate::rule::verif_kani_rule::mk_checked(mk_tokenized("abcdefghijkl", mk_concatenation_spanned(tokens, (0, 12)))), program }
+}
+#[cfg(not(kani))]
+fn mk_glob(tokens: Vec<crate::token::Token<'static, crate::diagnostics::Span>>) -> Glob<'static> {
+    use crate::token::verif_kani_token::{mk_concatenation_spanned, mk_tokenized};
+    // native replay: any real program will do, `captures()` does not read it
+    let program = Regex::new("").unwrap();
+    Glob { tree: crate::rule::verif_kani_rule::mk_checked(mk_tokenized("abcdefghijkl", mk_concatenation_spanned(tokens, (0, 12)))), program }
+}
+
+//@ob C17.captures.index-span
+//@ props: C17 C05
+//@ kind: bounded(globs whose top level is a concatenation of exactly 3 leaf tokens, every leaf kind and every span symbolic)
+//@ unwind: 6
+//@ fns: src/lib.rs::Glob::captures src/query.rs::CapturingToken::new src/query.rs::CapturingToken::index src/query.rs::CapturingToken::span src/token/mod.rs::Token::is_capturing src/token/mod.rs::LeafKind::is_capturing
+//@ pre: a glob whose top-level concatenation has three leaf tokens of any kinds with any annotated spans
+//@ post: the REAL Glob::captures yields exactly the capturing tokens (wildcards and classes; never literals or separators), in expression order, numbered 1, 2, ... without gaps (index 0 is the whole match), each with the span stored for ITS token -- so `&expression[start..][..len]` of capture i is the text of the i-th capturing sub-expression
+fn ob_c17_captures_index_span(ks: [u8; 3], starts: [usize; 3], lens: [usize; 3]) {
+    use crate::token::verif_kani_token::leaf_token_spanned;
+    vassume!(ks[0] <= 7 && ks[1] <= 7 && ks[2] <= 7);
+    let glob = mk_glob(vec![
+        leaf_token_spanned(ks[0], (starts[0], lens[0])),
+        leaf_token_spanned(ks[1], (starts[1], lens[1])),
+        leaf_token_spanned(ks[2], (starts[2], lens[2])),
+    ]);
+    vcover!(ks[0] == 0 && ks[1] == 2 && ks[2] == 4);
+    vcover!(ks[0] == 6 && ks[1] == 5 && ks[2] == 0);
+    let mut it = glob.captures();
+    let mut expected = 1usize;
+    let mut i = 0;
+    while i < 3 {
+        if matches!(ks[i], 1 | 2 | 3 | 4 | 6 | 7) {
+            match it.next() {
+                Some(capture) => {
+                    assert!(capture.index() == expected, "C17/C04 captures are numbered from 1 in expression order");
+                    assert!(capture.span() == (starts[i], lens[i]), "C17 a capture carries the span of its own sub-expression");
+                },
+                None => assert!(false, "C17/C04 every capturing token is reported"),
+            }
+            expected += 1;
+        }
+        i += 1;
+    }
+    assert!(it.next().is_none(), "C17/C04 literals and separators do not capture");
+    core::mem::forget(it);
+    core::mem::forget(glob);
+}
+
 //@ob C18.lib.canary
 //@ props: C18 C11
 //@ kind: canary
